@@ -465,6 +465,18 @@ def r5_continuity(chk, repo, rule="C12.R5"):
                 arg = c.args[0]
         prov = provenance(gen_defs, arg) if arg is not None else set()
         chk.check(ok and ("call:iter" in prov or ".iter" in prov), rule, gi, lp, "get_iter consumes the processor output without the continuity check (overlapping or gapped chunks would be returned as valid)", site_text="get_iter: iterates strax.continuity_check(<processor>.iter())")
+    # the saver thread reads the mailbox independently of the consumer: it must check for itself
+    sf = repo.func("Saver.save_from", "strax/storage/common.py")
+    SRC = sf.params[1]
+    takes = [c for c in calls_in(sf.node) if isinstance(c.func, ast.Name) and c.func.id == "next" and c.args]
+    sdefs = Defs(sf.node)
+    okc = bool(takes)
+    for c in takes:
+        a = c.args[0]
+        v = sdefs.single(a.id) if isinstance(a, ast.Name) else a
+        okc = okc and v is not None and isinstance(v, ast.Call) and (call_name(v) or "").endswith("continuity_check") and v.args and norm(v.args[0]) == SRC
+    chk.check(okc, rule, sf, stmt_of(takes[0]) if takes else None, "the saver thread takes its chunks straight from the mailbox, without a continuity check of its own: it can have stored (and closed) gapped or overlapping data before the consumer's check fails the request - the data is then stored as valid although the request failed",
+              site_text="Saver.save_from: chunks taken from strax.continuity_check(source)", site={"function": sf.qualname, "rule": "saver checks continuity itself"})
     cc = repo.func("continuity_check", CHUNK)
     cfg = cfg_of(cc)
     from ..pattern import facts_matching, find as _pf
@@ -613,6 +625,8 @@ def r8_layout(chk, repo):
 
 
 WITNESSES = [
+    W("saver reads the mailbox unchecked (the original defect)", "C12.R5", "strax/storage/common.py",
+      "chunks = rechunker.receive(next(checked_source))", "chunks = rechunker.receive(next(source))"),
     W("layout not compared in _check_dtype (the original defect)", "C12.R8", PLUGIN,
       "if got != expect or strax.dtype_layout(x.dtype) != strax.dtype_layout(self.dtype_for(d)):", "if got != expect:"),
     W("layout not compared in Chunk.__init__ (the original defect)", "C12.R8", CHUNK,
